@@ -69,6 +69,29 @@ CHECKS = {
         note="public keys with 3-4 leading zero bytes are only covered at design level (not findable by search)",
         technique="TLA+ reference operators (Keys, Base62) + TLC; key life cycle on real code; TLC trace validation",
         design_ref="DESIGN.md 3.7, 6 (C18); docs/C18.md"),
+    "C01": dict(
+        text="TLC checks Handshake.tla for AuthOnly / MutualTrust over every trust relation (party keys + bystander key) and Node.tla for BadIsStutter; on real mock-backed nodes every "
+             "single-bit flip, truncation and field edit of the genuine ping/pong/peng, random marker datagrams and messages signed with an untrusted key are presented in every handshake "
+             "stage with three receive-buffer residues and two claimed sources, the genuine datagram must still work afterwards, and all trust relations among 3 keys (sampled among 4) "
+             "must give peers exactly for mutual trust; TLC judges every family / trust record.",
+        note="signatures/hashes not attacked; per-member predicate applied in the harness, TLC judges family records; one recorded known finding (stale receive-buffer tail)",
+        technique="TLA+ specs Handshake/Node + TLC; exhaustive tamper families and trust graphs on real nodes; TLC record validation",
+        design_ref="DESIGN.md 3.2, 3.6, 6 (C01)"),
+    "C08": dict(
+        text="Node.tla: an unverifiable datagram is a stuttering step in every reachable state (TLC, scaled timers). On real mock-backed nodes with one reused receive buffer, families "
+             "(lengths 0..80 x structured first bytes, every truncation / byte substitution of genuine handshake, data, node-info and rotation datagrams, structured handshake parts behind a "
+             "genuine key-hash prefix, random datagrams up to the buffer size, sequences of 50) are presented in six receiver states from the peer's and an unknown address under panic capture; "
+             "TLC judges every family record.",
+        note="per-member predicate applied in the harness; plain sessions: only 'no panic' for datagrams from the peer's address; largest datagram 65435 bytes",
+        technique="TLA+ spec Node + TLC; exhaustive input families on real nodes under catch_unwind; TLC record validation",
+        design_ref="DESIGN.md 3.6, 6 (C08)"),
+    "C09": dict(
+        text="TLC explores Node.tla (pending table in front of the peer table, throw-away responders, hand-over, removal and re-dial, attacker replaying anything ever sent) for NoLoss / "
+             "StaysConnected / SameSession and requires the variant with the pinned tree's dispatch to be refuted; on real mock nodes with the real timer constants every datagram seen on the "
+             "wire of a 2- and 3-node mesh is re-injected at every offset, from three claimed sources, verbatim and edited, each followed by 400 s of probes; TLC judges every run record.",
+        note="scaled timers at design level, real constants in recorded runs; attacker holds no trusted key",
+        technique="TLA+ spec Node + TLC exhaustive (+ required refutation of the unrepaired dispatch); systematic injection plan on real nodes; TLC record validation",
+        design_ref="DESIGN.md 3.6, 6 (C09)"),
 }
 
 PENDING = {}
